@@ -235,7 +235,7 @@ class Orderer:
         reverse_prefix = registry_connector.get()[self.vendor].reverse
 
         for row, children in config.items():
-            cmd_direct = not row.startswith(reverse_prefix)
+            cmd_direct = not row.startswith(reverse_prefix + " ")
             (order, direct, rb, _) = self.get_order(row, cmd_direct)
             child_orderer = Orderer(rb, self.vendor)
             children = child_orderer.order_config(children)
